@@ -43,6 +43,16 @@ CoreFams(L, LS, LD) ==
 ExtFams(LD) ==
   U("ip6", {"P", "M"}, LD, 1..4) \cup U("ip6none", {"P"}, {0}, {1, 4})
   \cup U("udp6", {"P", "M"}, LD \cup {0}, 1..4) \cup U("echo6", {"P"}, LD, 2..9)
+  \* every upper-layer protocol with a pseudo-header behind every chain (var = 16 * chain + option / message variant);
+  \* (edits after the first serialisation are explored for payloads up to 64 bytes: only a few of these)
+  \cup U("ip6", {"P"}, {65}, 5..7) \cup U("udp6", {"P"}, {0, 65}, 5..7) \cup U("udp6", {"S"}, {1}, 5..7)
+  \cup U("echo6", {"P"}, {65}, 10..15)
+  \cup U("tcp6x", {"P"}, {65, 1471}, {16 * e + t : e \in 1..7, t \in {0, 3}})
+  \cup U("tcp6x", {"P"}, {0, 1}, {16 + 3, 64 + 3}) \cup U("tcp6x", {"M", "S"}, {2}, {16 * e + 3 : e \in {1, 4, 6}})
+  \cup U("tcp6x", {"P"}, {127}, {16 * e + t : e \in {1, 4, 6}, t \in {4, 10}})
+  \cup U("nd6x", {"P"}, {0}, {16 * e + 1 : e \in {1, 4, 5, 6}}) \cup U("nd6x", {"M"}, {0}, {16 * 7 + 3})
+  \cup U("toobig6x", {"P"}, {65}, {16 * e : e \in 1..7})
+  \cup U("unreach6t", {"P"}, {8, 68}, {0, 16 + 1}) \cup U("unreach6t", {"P"}, {68}, {3, 64 + 3}) \cup U("unreach6t", {"M"}, {8}, {3})
 
 TailCases(LD) ==
   U("icmpcarry", {"P", "M", "S"}, {0, 2, 62, 1470}, {0, 1}) \cup U("udpzero", Classes, {0, 2, 62}, {0}) \cup U("tcpzero", {"P", "M"}, {0, 2, 62}, {0, 2}) \cup U("udp6zero", {"P", "Z"}, {0, 62}, {0})
@@ -60,6 +70,9 @@ TailCases(LD) ==
   \cup U("unreach6", {"P", "M"}, {0, 1, 8}, {0}) \cup U("toobig", Classes, LD \cup {0}, {0}) \cup U("timex6", {"P", "M"}, LD \cup {0}, {0})
 DnsCases == U("dns", Classes, {0}, 0..4) \cup Dv("dns", {0}, 2) \cup U("dnsr", {"P", "M"}, {0}, {1, 2})
             \cup U("mdns", {"P"}, {0}, {1, 2})
+            \* names sharing suffixes: free-form serialisation
+            \cup U("dns", {"P"}, {0}, 5..9) \cup U("dns", {"M"}, {0}, {6}) \cup U("dnsr", {"P"}, {0}, {5, 7}) \cup U("mdns", {"P"}, {0}, {8})
+            \cup U("dns6", {"P"}, {0}, {2, 5, 16 + 7})
 MCTail   == TailCases(LensDev)
 MCDns    == DnsCases
 MCTiny   == CoreFams(LensTiny, LensTiny, {1})
@@ -73,4 +86,5 @@ MCExt    == ExtFams(LensDev)
 MCSweep  == U("udp", {"P"}, 0..1500, {0}) \cup U("echo", {"M"}, {n \in 0..1500 : n % 7 = 3}, {1})
             \cup U("tcp6", {"P"}, {n \in 0..1500 : n % 11 = 5}, {3}) \cup U("udp6", {"S"}, {n \in 0..1500 : n % 13 = 1}, {0})
             \cup U("tcp", {"M"}, {n \in 0..1500 : n % 3 = 1}, {3}) \cup U("echo6", {"P"}, {n \in 0..1500 : n % 5 = 2}, {1})
+            \cup U("tcp6x", {"P"}, {n \in 65..1440 : n % 17 = 4}, {64 + 3}) \cup U("tcp6x", {"S"}, {n \in 65..1440 : n % 29 = 9}, {96 + 4})
 =============================================================================
